@@ -95,7 +95,9 @@ fn outcome_of(o: u8) -> UvOutcome {
         7 => UvOutcome::Lockout(0x3C),
         8 => UvOutcome::Lockout(0x3F),
         9 => UvOutcome::Lockout(0x27),
-        _ => UvOutcome::Lockout(0x2F),
+        10 => UvOutcome::Lockout(0x2F),
+        // every other status byte as the user step's error (the byte is the outcome number)
+        b => UvOutcome::Err(b),
     }
 }
 /// what the scripted user step answers to the question (up, uv) under this outcome
@@ -138,6 +140,16 @@ pub fn cases() -> Vec<Case> {
                         }
                     }
                 }
+            }
+        }
+        // the user step fails with every status byte there is: whatever the code, a ceremony whose
+        // validation step failed ends in an error - also when nothing was asked of the user
+        for bits in 0..4u8 {
+            for outcome in 11..=255u8 {
+                if outcome == UV_PANICS {
+                    continue;
+                }
+                v.push(Case { op, rk: false, up: bits & 2 != 0, uv: bits & 1 != 0, cap: 2, presence_cap: true, outcome, pin: false, arc_mutex: outcome % 2 == 0, level: 0, uvreq: 0, ext: 0, wire: 0, flip: false, protocol_only: false });
             }
         }
         for uvreq in 0..4u8 {
@@ -299,7 +311,7 @@ fn observe_client(c: &Case, store: RefStore, list: Option<Vec<Vec<u8>>>, log: Lo
                     user: webauthn::PublicKeyCredentialUserEntity { id: vec![9, 9].into(), name: "u".into(), display_name: "U".into() },
                     challenge: vec![1, 2, 3, 4].into(),
                     pub_key_cred_params: vec![es256_param()],
-                    timeout: None,
+                    timeout: ambient_timeout(),
                     exclude_credentials: list.map(|l| l.iter().map(|i| descriptor(i)).collect()),
                     authenticator_selection: (c.uvreq != 0).then(|| webauthn::AuthenticatorSelectionCriteria {
                         authenticator_attachment: None,
@@ -307,7 +319,7 @@ fn observe_client(c: &Case, store: RefStore, list: Option<Vec<Vec<u8>>>, log: Lo
                         require_resident_key: false,
                         user_verification: uv_requirement(c.uvreq),
                     }),
-                    hints: None,
+                    hints: ambient_hints(),
                     attestation: Default::default(),
                     attestation_formats: None,
                     extensions: None,
@@ -327,11 +339,11 @@ fn observe_client(c: &Case, store: RefStore, list: Option<Vec<Vec<u8>>>, log: Lo
             let opts = webauthn::CredentialRequestOptions {
                 public_key: webauthn::PublicKeyCredentialRequestOptions {
                     challenge: vec![1, 2, 3, 4].into(),
-                    timeout: None,
+                    timeout: ambient_timeout(),
                     rp_id: None,
                     allow_credentials: list.map(|l| l.iter().map(|i| descriptor(i)).collect()),
                     user_verification: uv_requirement(c.uvreq),
-                    hints: None,
+                    hints: ambient_hints(),
                     attestation: Default::default(),
                     attestation_formats: None,
                     extensions: None,
@@ -650,7 +662,7 @@ pub fn run(ctx: &Ctx) -> Result<Run, String> {
     }
     let mut run = Run::from_stats(
         "model_checking",
-        "complete product op x rk x up x uv x verification-capability x presence-capability (the configurations with presence capability off also use a store that answers 'nothing found' with Ok(empty) instead of an error) x validation-outcome(7) x pin-auth x store kind, each with 6 store contents incl. two simultaneously matching credentials (CTAP2 level) plus userVerification(4) x op x capability x outcome at client level; plus all ordered pairs of (operation, uv requested, validation outcome) ceremonies on ONE authenticator, with the verification capability staying or changing between the two (configured -> absent / unconfigured and back) (neither consent nor a capability seen earlier may carry over); a configuration is non-trivial when at least one of its ceremonies succeeded or was refused for a consent reason (0x27/0x2B)",
+        "complete product op x rk x up x uv x verification-capability x presence-capability (the configurations with presence capability off also use a store that answers 'nothing found' with Ok(empty) instead of an error) x validation-outcome(7; and the user step failing with each of the other 244 status bytes, for every up/uv request incl. the silent one) x pin-auth x store kind, each with 6 store contents incl. two simultaneously matching credentials (CTAP2 level) plus userVerification(4) x op x capability x outcome at client level; plus all ordered pairs of (operation, uv requested, validation outcome) ceremonies on ONE authenticator, with the verification capability staying or changing between the two (configured -> absent / unconfigured and back) (neither consent nor a capability seen earlier may carry over); a configuration is non-trivial when at least one of its ceremonies succeeded or was refused for a consent reason (0x27/0x2B)",
         true,
         stats,
     );
